@@ -16,7 +16,7 @@ PROP = "C15"
 LEVEL = "exploration"
 SHARDS = {"quick": 8, "thorough": 16}
 TIMEOUT = {"quick": 900, "thorough": 7200}
-REQUIRED = {"no_secret_leaf": 60, "public_unchanged": 60, "cli_paranoia": 4}
+REQUIRED = {"no_secret_leaf": 60, "public_unchanged": 60, "cli_paranoia": 12, "channels": 100}
 ANCHORS = ["__main__:paranoia_mode", "paper_wallet:PaperWallet.generate"]
 RULE = ("wallets from all constructors x both networks x accounts/intervals as C06; passphrases empty or >= 12 chars with a "
         "non-Base58 marker; EVERY string (keys and values) at every nesting depth of paranoia_mode(generate(...)) is tested "
@@ -137,6 +137,53 @@ def judge_wallet(ctx, case):
     ctx.judge("public_unchanged", not d, case, None, d[:4], cls=cls, mech="C15.public_changed")
 
 
+def judge_channels(ctx, case):
+    """The filtered dict handed to the wallet's own output channels (json, pprint, export_wallet) for wallets from
+    EVERY constructor: what comes out must still carry no secret (a channel that 'completes' the data would leak)."""
+    import contextlib
+    import io
+    from btc_hd_wallet.__main__ import paranoia_mode
+    acct, s, e = case["account"], case["start"], case["end"]
+    w, m, mn, pw, tn = build_wallet(case)
+    data = w.generate(account=acct, interval=(s, e))
+    filt = paranoia_mode(data=data)
+    seed = case.get("seed") or rb39.seed(mn, pw)
+    S, scal = secret_set(m, tn, mn, pw, seed, acct, s, e, data)
+    want_pub = public_part(json.loads(json.dumps(data)))
+    d = tempfile.mkdtemp(prefix="vp-c15ch-")
+    try:
+        outs = {}
+        outs["json"] = w.json(data=filt)
+        outs["json-indent"] = w.json(data=filt, indent=2)
+        buf = io.StringIO()
+        with contextlib.redirect_stdout(buf):
+            w.pprint(data=filt)
+        outs["pprint"] = buf.getvalue()
+        p = os.path.join(d, "w.json")
+        w.export_wallet(file_path=p, data=filt)
+        outs["export_wallet"] = open(p).read()
+    except Exception as ex:  # noqa
+        shutil.rmtree(d, ignore_errors=True)
+        return ctx.judge("channels", False, case, "text", ex, cls="chan|raised", mech="C15.channels.raised")
+    shutil.rmtree(d, ignore_errors=True)
+    for name, text in outs.items():
+        bad = []
+        try:
+            obj = json.loads(text)
+            bad += scan(obj, S, scal)
+            dd = rpaper.diff(want_pub, obj)       # (rows exist here: the all-empty case is the CLI's business, see C20)
+            if dd:
+                bad.append(("public_changed", dd[0]))
+        except ValueError:
+            bad.append(("not_json", text[:80]))
+        for sec in S:
+            if len(sec) >= 8 and sec in text:
+                bad.append(("raw_text_contains_secret", sec[:24]))
+                break
+        ctx.judge("channels", not bad, dict(case, channel=name), "public part only", bad[:3],
+                  cls="chan|%s|%s|%s" % (name, case["route"], "test" if tn else "main"), mech="C15.channels." + (bad[0][0] if bad else ""))
+
+
 def cli_run(args, cwd):
     env = dict(os.environ, PYTHONPATH=os.path.realpath(REPO), PYTHONDONTWRITEBYTECODE="1")
     return subprocess.run([sys.executable, "-m", "btc_hd_wallet"] + args, cwd=cwd, env=env, capture_output=True, text=True, timeout=300)
@@ -148,6 +195,7 @@ def judge_cli(ctx, case):
     seed = rb39.seed(mn, pw)
     m = rb32.master(seed)
     acct, s, e = case["account"], case["start"], case["end"]
+    src = case.get("source", "from-mnemonic")
     d = tempfile.mkdtemp(prefix="vp-c15-")
     try:
         args = ["--paranoia", "--account", str(acct), "--interval", str(s), str(e)]
@@ -157,9 +205,17 @@ def judge_cli(ctx, case):
         if case["to_file"]:
             target = os.path.join(d, "out.json")
             args += ["-f", target]
-        args += ["from-mnemonic", mn]
-        if pw:
-            args += ["--password", pw]
+        mn_echo, pw_echo = mn, pw
+        if src == "from-mnemonic":
+            args += ["from-mnemonic", mn] + (["--password", pw] if pw else [])
+        elif src == "from-entropy-hex":
+            args += ["from-entropy-hex", ent.hex()] + (["--password", pw] if pw else [])
+        elif src == "from-bip39-seed":
+            args += ["from-bip39-seed", seed.hex()]
+            mn_echo = pw_echo = None
+        else:
+            args += ["from-master-xprv", m.xprv(rb32.version_for("prv", tn, case.get("purpose", 44)))]
+            mn_echo = pw_echo = None
         p = cli_run(args, d)
         if p.returncode != 0:
             return ctx.judge("cli_paranoia", False, case, "exit 0", {"rc": p.returncode, "stderr": p.stderr[-300:]}, cls="cli|failed", mech="C15.cli.failed")
@@ -169,7 +225,7 @@ def judge_cli(ctx, case):
             filt = json.loads(text)
         except ValueError as ex:
             return ctx.judge("cli_paranoia", False, case, "JSON", str(ex), cls="cli|notjson", mech="C15.cli.notjson")
-        unf = rpaper.generate(m, tn, acct, s, e, mn, pw)
+        unf = rpaper.generate(m, tn, acct, s, e, mn_echo, pw_echo)
         S, scal = secret_set(m, tn, mn, pw, seed, acct, s, e, unf)
         bad = scan(filt, S, scal)
         # raw text scan as well (anything printed outside the JSON structure)
@@ -180,7 +236,8 @@ def judge_cli(ctx, case):
                     break
         dd = rpaper.diff(public_part(unf), filt)
         ok = not bad and not dd
-        return ctx.judge("cli_paranoia", ok, case, "public part only", (bad[:3], dd[:3]), cls="cli|%s|%s" % ("file" if target else "stdout", "test" if tn else "main"),
+        return ctx.judge("cli_paranoia", ok, case, "public part only", (bad[:3], dd[:3]),
+                         cls="cli|%s|%s|%s" % (src, "file" if target else "stdout", "test" if tn else "main"),
                          mech="C15.cli." + (bad[0][0] if bad else "public_changed"))
     finally:
         shutil.rmtree(d, ignore_errors=True)
@@ -202,16 +259,26 @@ def run(ctx):
     rnd = ctx.rnd
     for j in range(ctx.scale(96, 8000)):
         judge_wallet(ctx, gen_case(rnd, j + 3 * ctx.shard))
-    for j0 in range(ctx.scale(8, 320)):
+    for j in range(ctx.scale(60, 4000)):
+        case = gen_case(rnd, j + 2 * ctx.shard)
+        if case["end"] <= case["start"]:
+            case["end"] = case["start"] + 1
+        judge_channels(ctx, case)
+    for j0 in range(ctx.scale(16, 640)):
         j = j0 * ctx.nshards + ctx.shard          # all four (network, target) combinations occur across shards
         s = rnd.choice([0, 3, H - 2])
         judge_cli(ctx, {"entropy": gen.rbytes(rnd, rnd.choice([16, 32])), "passphrase": rnd.choice(["", "0OIl-marker-passphrase"]),
-                        "testnet": bool(j & 1), "account": rnd.choice([0, 5]), "start": s, "end": s + rnd.randrange(0, 3),
-                        "to_file": bool((j >> 1) & 1)})
+                        "testnet": bool(j & 1), "account": rnd.choice([0, 5, 9]), "start": s, "end": s + rnd.randrange(0, 3),
+                        "to_file": bool((j >> 1) & 1),
+                        "source": ["from-mnemonic", "from-bip39-seed", "from-master-xprv", "from-entropy-hex"][(j >> 2) % 4],
+                        "purpose": rnd.choice([44, 49, 84])})
 
 
 def replay(ctx, monitor, case):
     if monitor == "cli_paranoia":
         judge_cli(ctx, case)
+    elif monitor == "channels":
+        case.pop("channel", None)
+        judge_channels(ctx, case)
     else:
         judge_wallet(ctx, case)
